@@ -28,6 +28,12 @@ class H(BaseHTTPRequestHandler):
         beh = self.path.strip('/').split('/')[0]
         if beh == '200-json':
             self.send_response(200); self.send_header('Content-Type', 'application/json'); self.end_headers(); self.wfile.write(BODY.encode())
+        elif beh == '200-json-charset-label':
+            # the same UTF-8 JSON under a Content-Type that names another charset: JSON is UTF-8 whatever the label says
+            self.send_response(200); self.send_header('Content-Type', 'application/json; charset=ISO-8859-1'); self.end_headers(); self.wfile.write(BODY.encode())
+        elif beh == '200-badutf8':
+            # well-formed JSON punctuation around a byte sequence that is not UTF-8: not a JSON text, must be refused
+            self.send_response(200); self.send_header('Content-Type', 'application/json'); self.end_headers(); self.wfile.write(b'{"data": {"__schema": {"description": "\xff\xfe\xc3"}}}')
         elif beh == '200-garbage':
             self.send_response(200); self.send_header('Content-Type', 'application/json'); self.end_headers(); self.wfile.write(b'<html>not json')
         elif beh == '404-json':
@@ -229,7 +235,7 @@ pub fn run(outdir: &Path, tier: &str, seed: u64, shards: usize, _replay: Option<
     }
 
     // ---- runs: flags x server behaviour x output placement
-    let behaviours = ["200-json", "200-garbage", "404-json", "401-text", "500-json", "closed", "refused"];
+    let behaviours = ["200-json", "200-json-charset-label", "200-badutf8", "200-garbage", "404-json", "401-text", "500-json", "closed", "refused"];
     let mut n = 0;
     for (fi, (one_of, by_url)) in [(false, false), (true, false), (false, true), (true, true)].iter().enumerate() {
         for beh in behaviours {
@@ -322,7 +328,7 @@ pub fn run(outdir: &Path, tier: &str, seed: u64, shards: usize, _replay: Option<
     let samples: Vec<_> = cases.iter().step_by((cases.len() / 8).max(1)).map(|c| c.desc.clone()).collect();
     let cs = CaseSet { run_module: "RunC20".into(), cases, checkers: vec!["corr".into(), "prop_header".into(), "prop_run".into()], extra_imports: vec!["Cli".into()], preludes: vec![] };
     cs.write(outdir, shards, json!({
-        "rule": "the built binary against a python3 loopback server: 4 flag combinations x 7 server behaviours (200+JSON, 200+garbage, 404+JSON, 401+text, 500, connection closed mid-reply, connection refused) x {stdout, new --output, pre-existing --output} x 6 header / bearer variants (none, one, three, a repeated field name in two spellings, a name the command sets itself, twelve headers over five names; quick rotates through them); header strings from a grammar of paddings (space, tab, NBSP, EM SPACE, IDEOGRAPHIC SPACE, NEL), names, colons, values incl. non-ASCII, observed through the binary (exit 2 from clap, or the header the server received).",
+        "rule": "the built binary against a python3 loopback server: 4 flag combinations x 9 server behaviours (200+JSON, 200+the same JSON labelled charset=ISO-8859-1, 200+bytes that are not UTF-8 inside JSON punctuation, 200+garbage, 404+JSON, 401+text, 500, connection closed mid-reply, connection refused) x {stdout, new --output, pre-existing --output} x 6 header / bearer variants (none, one, three, a repeated field name in two spellings, a name the command sets itself, twelve headers over five names; quick rotates through them); header strings from a grammar of paddings (space, tab, NBSP, EM SPACE, IDEOGRAPHIC SPACE, NEL), names, colons, values incl. non-ASCII, observed through the binary (exit 2 from clap, or the header the server received).",
         "distribution": dist, "samples": samples,
     }));
     let _ = std::fs::remove_dir_all(&work);
